@@ -221,7 +221,11 @@ func (t *TcpConn) readPump() {
 			t.ForceClose(err) // I/O超时或者发生错误，强制关闭连接
 			return
 		}
-		t.inbound <- pkt // 如果channel满了，这里会阻塞
+		select {
+		case t.inbound <- pkt: // 如果channel满了，这里会阻塞
+		case <-t.done: // ...until the connection is closed: Close/finally wait for this goroutine
+			return
+		}
 
 		// test if we should exit
 		if t.testShouldExit() {
